@@ -263,7 +263,8 @@ void ed_read_bin(ed_t a, const uint8_t *bin, size_t len) {
 	fp_sqr(a->z, a->z);
 #endif
 
-	if (!ed_on_curve(a)) {
+	/* The neutral element is only encoded by the single zero byte. */
+	if (!ed_on_curve(a) || ed_is_infty(a)) {
 		RLC_THROW(ERR_NO_VALID);
 	}
 }
